@@ -48,6 +48,8 @@ func vWorld(n int, sameEpoch bool) (*Handler, []blob.Ref, []time.Time) {
 	return vWorldK(n, sameEpoch, false)
 }
 
+var vAttr, vValue = "title", "x"
+
 func vWorldK(n int, sameEpoch, tiny bool) (*Handler, []blob.Ref, []time.Time) {
 	c := index.VerifNewCorpus()
 	c.VerifSetSigner(vSigner, "KEY1")
@@ -76,7 +78,7 @@ func vWorldK(n int, sameEpoch, tiny bool) (*Handler, []blob.Ref, []time.Time) {
 		}
 		err := c.VerifMergeClaim(camtypes.Claim{
 			BlobRef: blob.VerifSmallRef(byte(100 + i)), Signer: vSigner, Permanode: pn,
-			Date: t, Type: "set-attribute", Attr: "title", Value: "x",
+			Date: t, Type: "set-attribute", Attr: vAttr, Value: vValue,
 		})
 		vrt.Assume(err == nil)
 		refs = append(refs, pn)
@@ -95,6 +97,7 @@ func vSort() SortType {
 
 // K09a: the continue token written for a page parses back to the same (time, ref).
 func VK09aToken() {
+	vAttr, vValue = "title", "x"
 	h, refs, times := vWorld(1, false)
 	q := &SearchQuery{Constraint: &Constraint{Permanode: &PermanodeConstraint{}}, Limit: 1, Sort: vSort()}
 	res := &SearchResult{Blobs: []*SearchResultBlob{{Blob: refs[0]}}}
@@ -109,6 +112,7 @@ func VK09aToken() {
 // K09b: the continue constraint accepts exactly the items strictly after the token
 // position in the order the sorted enumeration uses.
 func VK09bOrder() {
+	vAttr, vValue = "title", "x"
 	h, refs, times := vWorld(2, true)
 	srt := vSort()
 	for last := 0; last < 2; last++ {
@@ -132,6 +136,11 @@ func VK09bOrder() {
 
 // K09c: following continue tokens returns every permanode exactly once, in order.
 func VK09cPaging() {
+	vAttr, vValue = "title", "x"
+	if vrt.Choice(2) == 1 {
+		// permanodes found through their node type: another candidate source for the planner
+		vAttr, vValue = "camliNodeType", "foo"
+	}
 	n := 3 + vrt.Tier()
 	h, refs, times := vWorldK(n, true, true)
 	srt := vSort()
@@ -139,7 +148,7 @@ func VK09cPaging() {
 	var got []blob.Ref
 	cont := ""
 	for page := 0; page < n+1; page++ {
-		q := &SearchQuery{Constraint: &Constraint{Permanode: &PermanodeConstraint{Attr: "title", Value: "x"}}, Limit: limit, Sort: srt, Continue: cont}
+		q := &SearchQuery{Constraint: &Constraint{Permanode: &PermanodeConstraint{Attr: vAttr, Value: vValue}}, Limit: limit, Sort: srt, Continue: cont}
 		res, err := h.Query(context.Background(), q)
 		vrt.Assert(err == nil, "query succeeds")
 		vrt.Assert(len(res.Blobs) <= limit, "page within limit")
@@ -184,6 +193,10 @@ func VK09cPaging() {
 // list that contains the pivot and has at most Limit elements, or nothing when the
 // pivot does not match.
 func VK09dAround() {
+	vAttr, vValue = "title", "x"
+	if vrt.Choice(2) == 1 {
+		vAttr, vValue = "camliNodeType", "foo"
+	}
 	n := 3 + vrt.Tier()
 	h, refs, _ := vWorldK(n, true, true)
 	var srt SortType
@@ -197,7 +210,7 @@ func VK09dAround() {
 	}
 	limit := 1 + vrt.Choice(n)
 	cons := func() *Constraint {
-		return &Constraint{Permanode: &PermanodeConstraint{Attr: "title", Value: "x"}}
+		return &Constraint{Permanode: &PermanodeConstraint{Attr: vAttr, Value: vValue}}
 	}
 	full, err := h.Query(context.Background(), &SearchQuery{Constraint: cons(), Limit: -1, Sort: srt})
 	vrt.Assert(err == nil && len(full.Blobs) == n, "unlimited query lists every permanode")
